@@ -11,6 +11,7 @@ the list (or of the function) are reported.  Paths are pruned with a small set o
 
   * a bool variable assigned constants on the path (`let mut first = true; .. first = false;`) decides the tests it feeds;
   * `it.peek().is_some()` decides the next `it.next()` (and the other way round nothing is assumed);
+  * the index that `enumerate()` hands out is 0 in the first iteration and positive in every later one (`if index > 0 { "," }`);
   * the first `next()` of an iterator over a list is `Some` exactly when the list is not empty, and `list.is_empty()` says the same thing
     every time it is asked on one path (lists are named by the field of the node they come from).
 
@@ -80,6 +81,32 @@ class Model:
                     self.meaning[c.dest[0]] = ("empty", ln, True)
             elif "from_residual" in cal:
                 self.err.add(c.bb)
+        # `index > 0` where index is the counter of an enumerate() over the list: true exactly from the second iteration on
+        for i_, j_, st_ in b.all_stmts():
+            if st_[0] != "=" or st_[1][1] or st_[2][0] != "bin" or st_[2][1] not in ("Gt", "Ge", "Ne", "Eq", "Lt", "Le"):
+                continue
+            from rules import panics
+            for idx_op, c_op, flip in ((st_[2][2], st_[2][3], False), (st_[2][3], st_[2][2], True)):
+                cv = panics._int_const(b, c_op)
+                ip = op_place(idx_op)
+                if cv is None or ip is None:
+                    continue
+                rt = b.root(ip)
+                if rt[0] not in self.next_dest:
+                    continue
+                it = self.next_dest[rt[0]]
+                dd = b.single_def(it)
+                ity = b.local_ty(it) or ""
+                if "Enumerate<" not in ity:
+                    continue
+                op_ = st_[2][1]
+                if flip:
+                    op_ = {"Gt": "Lt", "Lt": "Gt", "Ge": "Le", "Le": "Ge"}.get(op_, op_)
+                # truth of the comparison in the first iteration (index = 0) and in a later one (index >= 1)
+                def ev(x):
+                    return {"Gt": x > cv, "Ge": x >= cv, "Ne": x != cv, "Eq": x == cv, "Lt": x < cv, "Le": x <= cv}[op_]
+                if cv in (0, 1) and ev(1) == ev(2) == ev(10 ** 6):
+                    self.meaning[st_[1][0]] = ("first", it, ev(0), ev(1))
         # what each call writes
         loops = {}
 
@@ -206,7 +233,14 @@ def explore(ctx, b):
                         if ("flag", loc_) in g and g[("flag", loc_)] != val:
                             ok = False
                         mean = m.meaning.get(src)
-                        if ok and mean is not None:
+                        if ok and mean is not None and mean[0] == "first":
+                            truth = (val != neg)
+                            pos = g.get(("iterpos", mean[1]))
+                            if pos == "first" and truth != mean[2]:
+                                ok = False
+                            if pos == "later" and truth != mean[3]:
+                                ok = False
+                        elif ok and mean is not None:
                             truth = (val != neg)
                             kind_, key_, pos_ = mean
                             fact = truth if pos_ else (not truth)
@@ -237,6 +271,8 @@ def explore(ctx, b):
                                         ok = False
                                     else:
                                         g[ek] = not some
+                                if some:
+                                    g[("iterpos", it)] = "later" if g.get(("started", it)) else "first"
                                 g[("started", it)] = True
             if ok:
                 work.append((succ, (auto, frozenset(g.items()))))
